@@ -113,9 +113,9 @@ class NeighbourListing(_NQ):
             x = fresh('x', Node)
             e = r.make(x)
             if not (e.kind == 'node' and e.z.eq(x)):
-                return self.forbid(ctx, 'C02.neighbours.lists_node_ids', tags=T, note='element kind %s' % e.kind)
+                return self.shape(ctx, 'C02.neighbours.lists_node_ids', tags=T, note='element kind %s' % e.kind)
         else:
-            return self.forbid(ctx, 'C02.neighbours.returns_a_collection_of_nodes', tags=T, note='result kind %s' % r.kind)
+            return self.shape(ctx, 'C02.neighbours.returns_a_collection_of_nodes', tags=T, note='result kind %s' % r.kind)
         want = z3.And(Row[c.n], self.R(ctx, c, w, c.n, c.qb))
         ctx.oblige('C02.neighbours.lists_only_neighbours_present', z3.Implies(member(c.qb), want), tags=T)
         ctx.oblige('C02.neighbours.lists_every_neighbour_present', z3.Implies(want, member(c.qb)), tags=T)
@@ -184,7 +184,7 @@ class DegreeIter(_NQ):
             return self.forbid(ctx, 'C02.degree.no_exception.%s' % outcome[1], tags=T, note=outcome[2])
         gh = getattr(outcome[1], 'ghost', None)
         if gh is None or '$ydeg' not in gh:
-            return self.forbid(ctx, 'C02.degree.yields_node_number_pairs', tags=T)
+            return self.shape(ctx, 'C02.degree.yields_node_number_pairs', tags=T)
         Y = gh['$ydeg'].z
         if c.nb == 'none':
             ctx.oblige('C02.degree.one_pair_per_node_of_the_graph', Y[c.qb] == b2i(c.pre['NodeIn'][c.qb]), tags=T)
@@ -440,7 +440,7 @@ class DegreeQuery(_OverDegree):
             return self.forbid(ctx, 'C02.degree_query.asks_the_degree_iterator', tags=T)
         if c.nb == 'none':
             if r.kind != 'nodemap':
-                return self.forbid(ctx, 'C02.degree_query.returns_a_dict_over_the_nodes', tags=T, note='result kind %s' % r.kind)
+                return self.shape(ctx, 'C02.degree_query.returns_a_dict_over_the_nodes', tags=T, note='result kind %s' % r.kind)
             ctx.oblige('C02.degree_query.one_entry_per_node', r.dom(c.qb) == c.pre['NodeIn'][c.qb], tags=T)
             v = r.get(c.qb)
             ctx.oblige('C02.degree_query.entry_is_the_iterator_value', z3.Implies(c.pre['NodeIn'][c.qb], v.z == D(c.qb)) if v.kind == 'int' else z3.BoolVal(False), tags=T)
@@ -448,14 +448,14 @@ class DegreeQuery(_OverDegree):
             ctx.oblige('C02.degree_query.single_node_value_is_the_iterator_value', (r.z == D(c.n)) if r.kind == 'int' else z3.BoolVal(False), tags=T)
         else:
             if r.kind != 'dict':
-                return self.forbid(ctx, 'C02.degree_query.returns_a_dict_for_a_list', tags=T, note='result kind %s' % r.kind)
+                return self.shape(ctx, 'C02.degree_query.returns_a_dict_for_a_list', tags=T, note='result kind %s' % r.kind)
             inn = c.pre['NodeIn'][c.n]
             if len(r.pairs) == 0:
                 ctx.oblige('C02.degree_query.unknown_nodes_are_ignored', z3.Not(inn), tags=T)
             elif len(r.pairs) == 1 and r.pairs[0][0].kind == 'node' and r.pairs[0][1].kind == 'int':
                 ctx.oblige('C02.degree_query.listed_node_entry', z3.And(inn, r.pairs[0][0].z == c.n, r.pairs[0][1].z == D(c.n)), tags=T)
             else:
-                return self.forbid(ctx, 'C02.degree_query.one_entry_for_one_listed_node', tags=T)
+                return self.shape(ctx, 'C02.degree_query.one_entry_for_one_listed_node', tags=T)
         self.unchanged(ctx, c, 'degree_query')
 
 
@@ -479,7 +479,7 @@ class HasNode(_OverDegree):
             return self.forbid(ctx, 'C02.has_node.no_exception.%s' % outcome[1], tags=T, note=outcome[2])
         r = outcome[1]
         if r.kind != 'bool':
-            return self.forbid(ctx, 'C02.has_node.returns_bool', tags=T, note='result kind %s' % r.kind)
+            return self.shape(ctx, 'C02.has_node.returns_bool', tags=T, note='result kind %s' % r.kind)
         inn = c.pre['NodeIn'][c.n]
         if c.t is None:
             ctx.oblige('C02.has_node.flattened_is_membership', r.z == inn, tags=T)
@@ -546,10 +546,10 @@ class NodesAt(_OverDegree):
             x = fresh('x', Node)
             e = r.make(x)
             if not (e.kind == 'node' and e.z.eq(x)):
-                return self.forbid(ctx, 'C02.nodes.lists_node_ids', tags=T, note='element kind %s' % e.kind)
+                return self.shape(ctx, 'C02.nodes.lists_node_ids', tags=T, note='element kind %s' % e.kind)
             member = r.member
         else:
-            return self.forbid(ctx, 'C02.nodes.returns_a_collection_of_nodes', tags=T, note='result kind %s' % r.kind)
+            return self.shape(ctx, 'C02.nodes.returns_a_collection_of_nodes', tags=T, note='result kind %s' % r.kind)
         inn = c.pre['NodeIn']
         if c.t is None:
             ctx.oblige('C02.nodes.flattened_lists_every_node', member(c.n) == inn[c.n], tags=T)
@@ -583,7 +583,7 @@ class NumberOfNodes(_OverDegree):
         r = outcome[1]
         cards = [(cz, bag) for (cz, bag) in getattr(ctx, 'cards', []) if r.kind == 'int' and cz.eq(r.z)]
         if not cards:
-            return self.forbid(ctx, 'C02.number_of_nodes.is_a_number_of_elements', tags=T, note='result kind %s' % r.kind)
+            return self.shape(ctx, 'C02.number_of_nodes.is_a_number_of_elements', tags=T, note='result kind %s' % r.kind)
         member = cards[-1][1].member
         inn = c.pre['NodeIn']
         if c.t is None:
@@ -657,6 +657,6 @@ class GetNodeSnapshots(_OverDegree):
         elif r.kind == 'intbag':
             cnt = r.cnt
         else:
-            return self.forbid(ctx, 'C02.get_node_snapshots.returns_a_list_of_ids', tags=T, note='result kind %s' % r.kind)
+            return self.shape(ctx, 'C02.get_node_snapshots.returns_a_list_of_ids', tags=T, note='result kind %s' % r.kind)
         ctx.oblige('C02.get_node_snapshots.each_snapshot_with_the_node_once', cnt[c.q] == b2i(z3.And(c.pre['SKey'][c.q], c.HN(c.n, c.q))), tags=T)
         self.unchanged(ctx, c, 'get_node_snapshots')
